@@ -1,12 +1,17 @@
 """Crash/fault index slices per (kind, operation): shared by harness/gen.py and vf/registry.py."""
-OPS = ('pack', 'pack_clean', 'direct', 'direct_noholes', 'loose', 'delete')
+OPS = ('pack', 'pack_clean', 'direct', 'direct_noholes', 'loose', 'delete', 'repack', 'import', 'pack_nofsync', 'direct_nofsync')
+NOFSYNC = ('pack_nofsync', 'direct_nofsync')  # not part of C06 (default fsync settings only)
 WIDE = ((1, 12), (13, 24), (25, 36), (37, 50))
 NARROW = ((1, 6), (7, 12), (13, 18), (19, 24), (25, 30), (31, 36), (37, 50))
 LAST = 50
 
 
+def kinds_for(op):
+    return ('kill', 'fault') if op in NOFSYNC else ('kill', 'power', 'fault')
+
+
 def slices_for(kind, op):
     # the fault cells run the operation twice (fault, then rerun); direct-to-pack forks most
-    if kind == 'fault' and op in ('direct', 'direct_noholes', 'pack', 'pack_clean'):
+    if kind == 'fault' and op in ('direct', 'direct_noholes', 'pack', 'pack_clean', 'import', 'direct_nofsync', 'pack_nofsync'):
         return NARROW
     return WIDE
